@@ -110,6 +110,9 @@ def run_monitor(case):
                 raise Violation("C12.monitor", f"flow {f} sample at t={float(ts)}: sizes={got_n[i]} bytes={got_b[i]}, expected "
                                                f"{want_n}/{want_b} ({'incl.' if case['included'] else 'excl.'} packet in service)",
                                 "C12.monitor/" + ("included" if case["included"] else "excluded"))
+    if case.get("probe_all") and times and any(min(F(r.now) for r in ins if r.snap[1] == f) > max(times[0], F(case["probe_from"]))
+                                               and F(case["probe_from"]) > times[0] for f in {r.snap[1] for r in ins}):
+        classes.add("flow first sampled, then polled, then sends its first packet")
     nt = "sample while a packet of the flow is in service" in classes and "sample with a queue" in classes
     return {"nontrivial": nt, "classes": sorted(classes)}
 
@@ -175,8 +178,9 @@ def monitor_strategy(tier):
                     min_size=4, max_size=30)
 
     def build(k):
-        return st.tuples(spec_strategy(k, tier, exact_only=True), gaps, st.booleans()).map(
-            lambda t: dict(t[0], sample_gaps=t[1], included=t[2]))
+        return st.tuples(spec_strategy(k, tier, exact_only=True), gaps, st.booleans(), st.booleans(),
+                         st.sampled_from([0, 1 / 8192, 1 / 1024, 1 / 16, 1 / 4, 1])).map(
+            lambda t: dict(t[0], sample_gaps=t[1], included=t[2], probe_all=t[3], probe_from=t[4]))
     return kind.flatmap(build)
 
 
@@ -201,7 +205,8 @@ PROP = Property(
           "= a busy period with >=3 packets from >=2 flows and an arrival exactly at a transmission end."),
     facets=[facet_for(k) for k in schedlab.KINDS] + [
         Facet("monitor", monitor_strategy, run_monitor, quick=500, thorough=3000,
-              essential=["sample while a packet of the flow is in service", "sample with a queue"])],
+              essential=["sample while a packet of the flow is in service", "sample with a queue",
+                         "flow first sampled, then polled, then sends its first packet"])],
     assumptions=["workloads use configured flows only, positive priorities/weights/vticks (others make the loops spin; outside "
                  "the statement)"],
 )
